@@ -170,6 +170,11 @@ func (fr *Frame) computeLoopOrdinals() {
 				if _, isDbg := in.(*ssa.DebugRef); isDbg {
 					continue
 				}
+				if _, isPhi := in.(*ssa.Phi); isPhi {
+					// a phi carries the position of the variable's declaration, which precedes
+					// every loop that assigns the variable
+					continue
+				}
 				if p := in.Pos(); p.IsValid() && (best == token.NoPos || p < best) {
 					best = p
 				}
